@@ -14,7 +14,7 @@ def run(ctx):
     ctx.assumptions += sessin.ASSUME
     common = dict(functions=FUN, stubs=sessin.STUBS)
     ctx.add(Harness('C19_seq', VERIF + '/harness/C19_seq.c', defines=defs + ['VF_MAXCOPY=40'], unwind=12, unwindset=sessin.US, timeout=900,
-                    bounds='one sequence_check() call; every established state; expected number 1..2^32-1 and MsgSeqNum 0..2^32-1 (whole unsigned range); PossDupFlag absent/N/Y; '
+                    bounds='one sequence_check() call; every established state except the transient st_logon_received; expected number 1..2^32-1 and MsgSeqNum 0..2^32-1 (whole unsigned range); PossDupFlag absent/N/Y; '
                            'SendingTime/OrigSendingTime arbitrary instants', desc='sequence clause over the real Session::sequence_check', **common))
     lens = [0x2222, 0x1221] if ctx.tier == 'quick' else [a << 12 | b << 8 | c << 4 | d for a in (1, 2) for b in (1, 2) for c in (1, 2) for d in (1, 2)]
     for tlen in (1, 2):
